@@ -20,6 +20,7 @@ pub mod c14;
 pub mod c15;
 pub mod c16;
 pub mod c17;
+pub mod c18;
 pub mod common;
 
 pub struct PropMeta {
@@ -60,6 +61,7 @@ pub fn get(id: &str) -> Option<Box<dyn Prop>> {
         "C15" => Box::new(c15::C15),
         "C16" => Box::new(c16::C16),
         "C17" => Box::new(c17::C17),
+        "C18" => Box::new(c18::C18),
         _ => return None,
     })
 }
